@@ -6,7 +6,8 @@ PID = "C20"
 MODULES = ["Prelude", "C20_Model", "C20_Spec", "C20_Check"]
 PROPS_MODULE = "C20_Properties"
 THEOREMS = ["C20_status_update_keeps_spec_labels", "C20_main_update_keeps_status", "C20_create",
-            "C20_generation_iff", "C20_model_meets_spec", "C20_generation_refuted_for_representation_equality"]
+            "C20_generation_iff", "C20_model_meets_spec", "C20_generation_refuted_for_representation_equality",
+            "C20_stored_generation_iff_stored_change", "C20_stored_status_update", "C20_stored_create"]
 EVAL = "C20_Check.eval"
 CLAUSES = ["agree", "status_keeps_spec_labels_gen", "main_keeps_status", "create", "generation"]
 RULE = ("distinct (kind, op, stored, submitted, direct|decoded) cases where op is update/status and the two objects "
@@ -22,6 +23,9 @@ TRUSTED_BASE = [
     "generation >= 0 / not decremented is modelled), reflect / apiequality.Semantic.DeepEqual on the API structs, the JSON codec",
 ]
 ASSUMPTIONS = [
+    "every clause is judged on the STORED object before vs the object the whole rest.BeforeCreate/BeforeUpdate step "
+    "(PrepareFor*, validation, Canonicalize) leaves to be stored; the stored object of an update case is injected "
+    "directly (not only produced by a create); annotation keys include well-known ones",
     "leaf cases: the difference between stored and submitted spec ranges over every real leaf field of "
     "UpstreamClusterSpec / RateLimitSpec (enumerated reflectively by the harness); 'the spec changed' is decided by the "
     "harness on the wire form (JSON of the Spec member) independently of the code under test and handed to the abstract "
@@ -41,6 +45,11 @@ ASSUMPTIONS = [
 MAXI = 2 ** 63 - 1
 # [key, value]; value 0 is rendered as the empty string (marker annotations such as "paused": "")
 KV = [None, [], [[1, 1]], [[1, 2]], [[1, 1], [2, 1]], [[1, 0]], [[2, 0]], [[1, 1], [2, 0]], [[1, 1], [3, 0]], [[1, 0], [2, 1]]]
+# keys 7, 8, 9 are WELL-KNOWN annotation keys (harness: kubectl.kubernetes.io/last-applied-configuration,
+# deployment.kubernetes.io/revision, proxy.kubegateway.io/feature-gates); the others are verif.io/k<n>
+KV += [[[7, 1]], [[7, 2]], [[1, 1], [7, 1]], [[7, 1], [8, 1]], [[8, 1]], [[8, 2]], [[9, 1]], [[1, 1], [9, 1]],
+       [[7, 1], [8, 1], [9, 1]], [[2, 0], [7, 1]]]
+WELL_KNOWN = [7, 8, 9]
 FIN = [None, [], [1], [1, 2]]
 SC = [None, [], [1], [1, 2], [2, 1]]
 STC = [None, [], [3], [3, 4]]
@@ -105,7 +114,35 @@ def corpus():
         cs.append(case(kind, "create", desc(), desc(-5)))
     cs.append(case("uc", "status", desc(-5), desc(7)))
     cs.append(case("uc", "status", desc(MAXI), desc(7, s=2, labels=[[1, 1]])))
+    cs += stored_corpus()
     cs += leaf_corpus()
+    return cs
+
+
+def stored_corpus():
+    """Stored object before vs stored object after, with well-known annotation keys: re-apply of an identical manifest,
+    label-only / status-only updates of an object stored with such an annotation (the stored object is injected
+    directly), first appearance and removal of the annotation (seed C20-f: Canonicalize dropped the last-applied key
+    after the generation decision had been taken on the submitted annotations)."""
+    cs = []
+    for kind in ("uc", "ucx", "rlc"):
+        for raw in (False, True):
+            for key in WELL_KNOWN + [1]:
+                for others in ([], [[2, 1]]):
+                    ann = sorted(others + [[key, 1]])
+                    stc = [3] if kind != "uc" else None
+                    with_a = desc(1, [[1, 1]], ann, None, 1, [1], stc)
+                    without = desc(1, [[1, 1]], others or None, None, 1, [1], stc)
+                    manifest = dict(copy.deepcopy(with_a), gen=0)
+                    cs.append(case(kind, "create", without, manifest, raw))                       # first apply
+                    cs.append(case(kind, "update", with_a, manifest, raw))                        # re-apply, stored as on /repo
+                    cs.append(case(kind, "update", without, manifest, raw))                       # re-apply onto a store that lacks it
+                    cs.append(case(kind, "update", with_a, dict(copy.deepcopy(manifest), labels=[[1, 2]]), raw))   # label only
+                    cs.append(case(kind, "update", with_a, dict(copy.deepcopy(manifest), fin=[1]), raw))
+                    cs.append(case(kind, "update", with_a, dict(copy.deepcopy(without), gen=0), raw))              # annotation removed
+                    cs.append(case(kind, "update", with_a, dict(copy.deepcopy(manifest), ann=sorted(others + [[key, 2]])), raw))
+                    cs.append(case(kind, "status", with_a, dict(copy.deepcopy(manifest), status={"s": 0, "c": [4] if kind != "uc" else None}), raw))
+                    cs.append(case(kind, "status", with_a, dict(copy.deepcopy(without), labels=[[1, 2]]), raw))
     return cs
 
 
@@ -174,10 +211,36 @@ def gen_leaf(rng):
     return leaf_case(kind, rng.chance(1, 2), old, new, ann, ann if rng.chance(3, 4) else rng.choice(KV), rng.choice(GENS))
 
 
+def gen_stored(rng):
+    """object stored with well-known annotations; the submitted object is the identical manifest or differs in labels /
+    finalizers / status only, or in exactly the well-known annotation"""
+    kind = rng.choice(["uc", "uc", "ucx", "rlc"])
+    old = rand_desc(rng, kind)
+    old["ann"] = sorted((old["ann"] or []) and [p for p in old["ann"] if p[0] not in WELL_KNOWN] or []) + \
+        [[k, rng.choice([1, 2])] for k in rng.sample(WELL_KNOWN, rng.randint(1, 2))]
+    old["ann"] = sorted(old["ann"])
+    new = copy.deepcopy(old)
+    new["gen"] = rng.choice([0, old["gen"], 77])
+    k = rng.below(6)
+    if k == 1:
+        new["labels"] = rng.choice(KV)
+    elif k == 2:
+        new["fin"] = rng.choice(FIN)
+    elif k == 3 and kind != "uc":
+        new["status"] = {"s": 0, "c": rng.choice(STC)}
+    elif k == 4:
+        new["ann"] = [p for p in new["ann"] if p[0] not in WELL_KNOWN] or None
+    elif k == 5:
+        new["ann"] = sorted([p if p[0] not in WELL_KNOWN else [p[0], 3 - p[1]] for p in new["ann"]])
+    op = rng.choice(["update", "update", "update", "status" if kind != "rlc" else "update", "create"])
+    return case(kind, op, old, new, rng.chance(1, 4))
+
+
 def generate(rng, tier, scale=1):
     n, nb = (520, 40) if tier == "quick" else (8000, 400)
     n, nb = n * scale, nb * scale
     cs = [gen_pair(rng) for _ in range(n)]
+    cs += [gen_stored(rng) for _ in range((150 if tier == "quick" else 3000) * scale)]
     cs += [gen_leaf(rng) for _ in range((200 if tier == "quick" else 6000) * scale)]
     edge = [MAXI, MAXI - 1, -1, -2 ** 63, 0, 2 ** 31, 2 ** 32]
     for _ in range(nb):   # boundary stream: generations at the int64 edges
